@@ -34,6 +34,25 @@ Theorem C05_Inv_wake_every_history : forall tr, valid_trace (0, new_driver) tr -
 Proof. intros tr Hv. exact (proj2 (trace_inv tr (0, new_driver) inv_init Hv)). Qed.
 Print Assumptions C05_Inv_wake_every_history.
 
+(* The shape of the driver between two events, in every history -- this is what the
+   correspondence check evaluates on the REAL driver after every event through the hook
+   Driver::verif_snapshot: slots sorted by distinct deadlines, none in the past, the front slot
+   holds a timer, and next_wakeup itself is a scheduled wake-up w with now < w <= deadline for
+   every slot that holds a live timer. *)
+Theorem C05_snapshot_invariant : forall tr, valid_trace (0, new_driver) tr ->
+  let now := fst (fst (run_trace true (0, new_driver) tr)) in
+  let dr := snd (fst (run_trace true (0, new_driver) tr)) in
+  sorted (pending dr) /\
+  (forall d es, In (d, es) (pending dr) -> now < d) /\
+  match pending dr with (_, []) :: _ => False | _ => True end /\
+  (forall d es, In (d, es) (pending dr) -> es <> [] ->
+     exists w, next_wakeup dr = Some w /\ In w (scheduled dr) /\ now < w /\ w <= d).
+Proof.
+  intros tr Hv. destruct (trace_snap tr (0, new_driver) inv_init Hv snap_init) as [H1 H2 H3 H4].
+  split; [exact H1|]. split; [exact H2|]. split; [exact H3|exact H4].
+Qed.
+Print Assumptions C05_snapshot_invariant.
+
 (* never early: activation at [now] wakes only slots whose deadline has been reached
    (and, the queue being sorted, all of them) *)
 Theorem C05_never_early : forall now dr,
@@ -196,7 +215,7 @@ Qed.
 (* hand-over in the composite model: task 0 polls a boxed sleep(10) at 0 and sends it to task 1,
    then sleeps 30; task 1 receives it at 0 and resumes at exactly 10 *)
 Example C05_nonvacuous_hand_over :
-  run [0; 2; 7; 0; 0; 9; 0; 10; 1; 30; 4; 0; 0; 10; 0] = [2; 0; 30; 1; 2; 0; 10; 1; 1; 30].
+  firstn 10 (run [0; 2; 7; 0; 0; 9; 0; 10; 1; 30; 4; 0; 0; 10; 0]) = [2; 0; 30; 1; 2; 0; 10; 1; 1; 30].
 Proof. vm_compute. reflexivity. Qed.
 
 (* A stale wake-up event is an ordinary event of the histories the theorems quantify over:
@@ -222,5 +241,5 @@ Qed.
 (* the same in the composite model: task 0 waits in timeout(10, receive), then sleep_until(20);
    a message at 2 spawns task 1, which sends at once *)
 Example C05_nonvacuous_message_cancels_earliest_timer :
-  run [0; 2; 7; 0; 0; 11; 10; 0; 2; 20; 5; 0; 2; 9; 0; 5] = [3; 2; 1; 20; 1; 1; 2; 1; 1; 20].
+  firstn 10 (run [0; 2; 7; 0; 0; 11; 10; 0; 2; 20; 5; 0; 2; 9; 0; 5]) = [3; 2; 1; 20; 1; 1; 2; 1; 1; 20].
 Proof. vm_compute. reflexivity. Qed.
